@@ -340,9 +340,9 @@ impl Constraint {
                 }
                 _ => None,
             },
-            Constraint::HasField(struct_type, field_name, field_type)
-                if struct_type.is_closed() =>
-            {
+            Constraint::HasField(struct_type, field_name, field_type) => {
+                // The fields can be looked up as soon as the struct itself is known,
+                // even if some of its type arguments are still open.
                 if let Type::Struct(info) = struct_type
                     && let Some((_, actual_field_type)) = info.fields.get(field_name)
                 {
@@ -354,7 +354,6 @@ impl Constraint {
                     None
                 }
             }
-            Constraint::HasField(_, _, _) => None,
         }
     }
 
